@@ -2,6 +2,7 @@
 """print the prompt for a seeded-change sub-agent: python tools/seed_prompt.py C07 a"""
 import json, sys
 pid, tag = sys.argv[1], (sys.argv[2] if len(sys.argv) > 2 else "a")
+avoid = sys.argv[3] if len(sys.argv) > 3 else ""
 p = [json.loads(l) for l in open("/verif/properties.jsonl") if json.loads(l)["id"] == pid][0]
 wt = "/tmp/seed-%s%s" % (pid.lower(), tag)
 print(f"""You are helping to evaluate a verification tool by seeding a realistic defect into a library. Work ONLY inside the scratch git worktree {wt} (a checkout of the Python library SasView/sasmodels; create it first with: git -C /repo worktree add --detach {wt} HEAD). Never modify /repo itself and do not read anything under /verif.
@@ -23,6 +24,7 @@ Requirements
 * Demonstration: a self-contained script {wt}-out/demo1.py (demo2.py for a second change) that exits with status 0 on the unchanged code and non-zero (with a short message saying what went wrong) on the changed code, run as
       cd {wt} && SAS_DLL_PATH={wt}-dll SAS_OPENCL=none PYTHONPATH={wt} /venv/bin/python {wt}-out/demo1.py
   Check both: with the change applied, and on the unchanged code (save your change with `git diff > {wt}-out/patch1.diff`, revert with `git checkout -- .`, run the demo, re-apply with `git apply {wt}-out/patch1.diff`). Do NOT use `git stash` (the stash is shared with other worktrees).
+{("* Changes of the following kinds have ALREADY been produced by others - do something of a clearly different character (other file / other mechanism / other trigger): " + avoid) if avoid else ""}
 * If you can, produce TWO independent changes of different character (different mechanism / different file); otherwise one.
 
 Deliver in {wt}-out/ : patch1.diff (output of `git diff` for change 1 alone, relative to HEAD, applicable with `git apply`), demo1.py, and if you have a second one patch2.diff, demo2.py; and notes.md saying for each change what it breaks, what it needs in order to manifest, and the exact commands you ran with their results. When finished, leave the worktree clean (git checkout -- .) - I will remove it. Final answer: a short summary of each change (file, mechanism, trigger) and the test-suite result lines.""")
